@@ -423,6 +423,22 @@ Theorem c20_argv_symbol_sources : forall pid items out, items_effect CLI [] item
 Proof. exact argv_symbol_sources. Qed.
 Print Assumptions c20_argv_symbol_sources.
 
+(* end to end, from the command line to main(): a command line read item by item (any order, any mix of forms, options in front
+   of or behind the minidump) and accepted by the parser runs main() on exactly the flag record the manual's reading gives - each
+   flag is set iff it is given, --cyborg / --output-file / --log-file carry the value given.  With c20_plan_table, c20_rejections,
+   c20_success_iff .. (all stated over flag records) this carries the documented table over to argument vectors. *)
+Theorem c20_argv_to_flags : forall pid items out e, items_effect CLI [] items = Some out ->
+  parse CLI GROUP (render items) = PParsed out ->
+  exists f, stackwalk pid (render items) e = lift (run f e) /\
+    f_human f = given "human"%str items /\ f_json f = given "json"%str items /\ f_dump f = given "dump"%str items /\
+    f_help_md f = given "help-markdown"%str items /\ f_pretty f = given "pretty"%str items /\ f_brief f = given "brief"%str items /\
+    f_recover f = given "recover-function-args"%str items /\
+    f_cyborg f = option_map pid (first_value "cyborg"%str items) /\
+    f_output_file f = option_map pid (first_value "output-file"%str items) /\
+    f_log_file f = option_map pid (first_value "log-file"%str items).
+Proof. exact argv_to_flags. Qed.
+Print Assumptions c20_argv_to_flags.
+
 (* rejections, where they stand (behind any readable prefix, whatever follows - a later --help included): a flag or single-valued
    option the prefix already holds, in either form and with any value; a value the option's value parser refuses, in either form *)
 Theorem c20_repeated_option_rejected : forall items out name a post,
